@@ -36,7 +36,7 @@ def rewrite_imports(src_rel, mapping):
     return gen
 
 
-def instrument(files, skip="", also=None, swap=""):
+def instrument(files, skip="", also=None, swap="", selonly=False):
     """generate() callback for the E4 pause-point explorer: overlay copies of <files> (repo-relative, read from the current
     working tree) with a pause point before every statement and "sync" swapped for the lock-counting shim (tools_instr)."""
     def gen(scratch, repo):
@@ -53,8 +53,8 @@ def instrument(files, skip="", also=None, swap=""):
             src = os.path.join(repo, rel)
             if not os.path.exists(src):
                 raise SystemExit("HARNESS-ERROR: %s not found" % rel)
-            dst = os.path.join(scratch, "instr_" + rel.replace("/", "_"))
-            r = subprocess.run([tool, "-out", dst, "-skip", skip, "-swap", (swap.get(rel, "") if isinstance(swap, dict) else swap), src], capture_output=True, text=True)
+            dst = os.path.join(scratch, ("instrsel_" if selonly else "instr_") + (__import__("hashlib").md5(repr((skip, swap)).encode()).hexdigest()[:6] + "_") + rel.replace("/", "_"))  # one copy per flavour: the parts of a check share the scratch directory
+            r = subprocess.run([tool, "-out", dst, "-skip", skip, "-swap", (swap.get(rel, "") if isinstance(swap, dict) else swap)] + (["-selonly"] if selonly else []) + [src], capture_output=True, text=True)
             if r.returncode != 0:
                 raise SystemExit("HARNESS-ERROR: instrumenting %s failed: %s" % (rel, r.stderr))
             out[rel] = dst
@@ -232,7 +232,7 @@ SPECS["C14"] = dict(
                 budget={"quick": 60, "thorough": 600}),
            dict(name="doq-doh", pkg="internal/upstream/transport", run="TestVerifC14Q", go="go1.26", env=E3ENV, gomaxprocs=1, engines=E3ENGINES,
                 files=dict(TRANSPORT_COMMON, **{"harness/transport/zz_verif_c14q_test.go": "internal/upstream/transport/zz_verif_c14q_test.go"}),
-                params={"quick": {"DEPTH": 5, "FAULTS": 2}, "thorough": {"DEPTH": 7, "FAULTS": 3}},
+                params={"quick": {"DEPTH": 6, "FAULTS": 2}, "thorough": {"DEPTH": 7, "FAULTS": 3}},
                 budget={"quick": 60, "thorough": 600}),
            dict(name="pipeline-e2", pkg="internal/upstream/transport", run="TestVerifC14E2", go="go", engines=E2ENGINES, shards=8,
                 files={"harness/transport/zz_verif_c05e2_test.go": "internal/upstream/transport/zz_verif_c05e2_test.go",
@@ -375,7 +375,7 @@ SPECS["C19"] = dict(
     rule="see evidence rule written by the harness",
     assumptions=[],
     parts=[router_part("prefetch", "TestVerifC19", ["zz_verif_c19_test.go", "zz_verif_c07_test.go", "zz_verif_c08_test.go", "zz_verif_c03_test.go"],
-                       params={"quick": {"DEPTH": 4, "FAULTS": 1, "MANYKEYS": 100, "SHARDDEPTH": 3}, "thorough": {"DEPTH": 6, "FAULTS": 2, "MANYKEYS": 400}},
+                       params={"quick": {"DEPTH": 4, "FAULTS": 1, "MANYKEYS": 300, "SHARDDEPTH": 3}, "thorough": {"DEPTH": 6, "FAULTS": 2, "MANYKEYS": 400}},
                        budget={"quick": 90, "thorough": 1500}),
            dict(name="ctl-e2", pkg="app/router", run="TestVerifC19E2", go="go", engines=E2ENGINES,
                 files={"harness/router/zz_verif_c19e2_test.go": "app/router/zz_verif_c19e2_test.go"},
@@ -596,10 +596,13 @@ SPECS["C06"]["parts"].append(_preempt("reuse-preempt", "TestVerifC06", ["zz_veri
                                       {"quick": {"PAUSE": 1, "DEPTH": 4, "FAULTS": 1, "CALLS": 2}, "thorough": {"PAUSE": 1, "PAUSEHITS": 2, "DEPTH": 6, "FAULTS": 2, "CALLS": 3}}))
 
 SPECS["C05"]["parts"].append(_preempt("pipeline-preempt", "TestVerifC05", ["zz_verif_c05_test.go"],
-                                      {"quick": {"PAUSE": 1, "DEPTH": 4, "FAULTS": 1, "CALLS": 3}, "thorough": {"PAUSE": 1, "PAUSEHITS": 2, "DEPTH": 6, "FAULTS": 2, "CALLS": 3}}))
+                                      {"quick": {"PAUSE": 1, "DEPTH": 5, "FAULTS": 1, "CALLS": 3}, "thorough": {"PAUSE": 1, "PAUSEHITS": 2, "DEPTH": 6, "FAULTS": 2, "CALLS": 3}}))
 
 SPECS["C18"]["parts"].append(_preempt("transports-preempt", "TestVerifC18", ["zz_verif_c18_test.go", "zz_verif_c14_test.go"],
                                       {"quick": {"PAUSE": 1, "DEPTH": 4, "FAULTS": 1}, "thorough": {"PAUSE": 1, "PAUSEHITS": 2, "DEPTH": 5, "FAULTS": 2}}))
+
+SPECS["C14"]["parts"].append(_preempt("doq-preempt", "TestVerifC14Q", ["zz_verif_c14q_test.go"],
+                                      {"quick": {"PAUSE": 1, "DEPTH": 4, "FAULTS": 1}, "thorough": {"PAUSE": 1, "PAUSEHITS": 2, "DEPTH": 6, "FAULTS": 2}}))
 
 SPECS["C01"]["parts"].append(_preempt("pipeline-preempt", "TestVerifC05", ["zz_verif_c05_test.go"],
                                       {"quick": {"PAUSE": 1, "DEPTH": 4, "FAULTS": 1, "CALLS": 2}, "thorough": {"PAUSE": 1, "PAUSEHITS": 2, "DEPTH": 6, "FAULTS": 2, "CALLS": 3}}))
@@ -633,6 +636,13 @@ def _request_path(pause):
 for _pid in ("C04", "C12", "C20"):
     SPECS[_pid]["parts"].append(_request_path(True))
 SPECS["C04"]["parts"].append(_request_path(False))
+
+# owned selects (DESIGN 9.17) also in the plain E3 explorations of the scenarios that install the select hook: overlay copies that carry
+# no pause points, only the rewritten selects
+for _pid, _spec in SPECS.items():
+    for _part in _spec.get("parts", []):
+        if _part.get("run") in ("TestVerifC05", "TestVerifC06", "TestVerifC18") and "generate" not in _part and _part.get("pkg") == "internal/upstream/transport" and "pause" in _part.get("engines", ()):
+            _part["generate"] = instrument(TRANSPORT_SRC, selonly=True)
 
 for _pid in ("C18", "C07"):
     SPECS[_pid]["parts"].append(dict(name="redis-api", pkg="internal/cache", run="TestVerifRedisAPI", go="go", engines=("report", "choice"), gomaxprocs=2,
@@ -690,7 +700,7 @@ SPECS["C03"]["parts"].append(dict(name="many-in-flight", pkg="app/router", run="
 
 for _pid in ("C01", "C04", "C05", "C06", "C12", "C16", "C18", "C20"):
     if "E4" not in SPECS[_pid].get("technique", ""):
-        SPECS[_pid]["technique"] = SPECS[_pid].get("technique", "") + " + E4: the same exploration on overlay copies whose every statement boundary is a pause point (one goroutine held between two statements while further events are applied; preemption bound 1)"
+        SPECS[_pid]["technique"] = SPECS[_pid].get("technique", "") + " + E4: the same exploration on overlay copies whose every statement boundary is a pause point (one goroutine held between two statements while further events are applied; preemption bound 1) and whose blocking selects with several ready cases are choice points too (first ready case by default, any other as one deviation per execution)"
         SPECS[_pid]["engine"] = SPECS[_pid].get("engine", "") + " + E4 pause points"
 
 # --------------------------------------------------------------------------------------------
@@ -738,6 +748,7 @@ def manifest():
             {"name": "E1 enum", "path": "engine/choice, engine/report, harness/*", "kind_free_text": "sequential small-scope exhaustive enumeration of inputs / configurations / operation sequences against reference models"},
             {"name": "E2 sched", "path": "engine/sched", "kind_free_text": "controlled cooperative scheduler: all interleavings at lock/pool/timer operations up to a preemption bound"},
             {"name": "E3 evx", "path": "engine/env", "kind_free_text": "environment-event explorer in a testing/synctest bubble (virtual time): all orders of client/peer/fault/time events up to depth and fault bounds"},
+            {"name": "E4 pause points + owned selects", "path": "tools_instr, engine/pause, engine/psync, engine/vnet", "kind_free_text": "inside E3: overlay copies of the implementation files with a pause point before every statement (one goroutine held between two statements while further events are applied, preemption bound 1) and with every blocking multi-case receive select turned into a choice point over its ready cases"},
         ],
         "checks": checks,
         "not_applicable": na,
